@@ -402,20 +402,20 @@ package s3mem
 //@ uses keepQ: inv.shape inv.compl -hints hint.keepS hint.pos
 //@ uses done: inv.shape -hints hint.keepC hint.keepQ hint.curP hint.curC hint.pos
 //@ uses soundC: inv.objs inv.shape inv.after inv.count -hints hint.pos hint.cur hint.grow
-//@ uses grow: inv.shape inv.soundC
+//@ uses grow: inv.shape inv.soundC -hints hint.pos hint.cur
 //@ uses soundP: inv.objs inv.shape inv.after inv.count inv.pset -hints hint.pos hint.cur hint.keepP
 //@ uses compl: inv.shape -hints hint.done hint.pos
-//@ uses curP: inv.objs inv.shape inv.after inv.pset inv.last
-//@ uses curC: inv.objs inv.shape inv.after
-//@ uses keepP: inv.shape inv.pset
-//@ uses last: inv.shape inv.pset
-//@ uses keepS: inv.shape inv.pset
-//@ uses below: inv.objs inv.shape inv.after inv.count
-//@ uses asc: inv.objs inv.shape inv.after inv.count inv.below
+//@ uses curP: inv.objs inv.shape inv.after inv.pset inv.last -hints hint.pos hint.cur hint.keepP
+//@ uses curC: inv.objs inv.shape inv.after -hints hint.pos hint.cur hint.grow
+//@ uses keepP: inv.shape inv.pset -hints
+//@ uses last: inv.shape inv.pset -hints hint.keepS
+//@ uses keepS: inv.shape inv.pset -hints
+//@ uses below: inv.objs inv.shape inv.after inv.count -hints hint.pos hint.cur hint.grow hint.prev
+//@ uses asc: inv.objs inv.shape inv.after inv.count inv.below -hints hint.pos hint.cur hint.grow hint.prev
 //@ uses skip: inv.objs inv.shape
-//@ uses pset: inv.objs inv.shape
-//@ uses count: inv.objs inv.shape
-//@ uses objs: inv.shape
+//@ uses pset: inv.objs inv.shape -hints
+//@ uses count: inv.objs inv.shape -hints hint.pos hint.grow hint.keepP
+//@ uses objs: inv.shape -hints
 //@ uses own: inv.shape -hints
 //@ uses same: inv.shape inv.own -hints
 //@ ensures [C02]     nobucket: imp(!hasBucket(db, name), ret0 == nil && errcode(ret1) == gofakes3.ErrNoSuchBucket)
@@ -431,7 +431,7 @@ package s3mem
 //@ rethint           truncC: imp(ret1 == nil && ret0 != nil && ret0.IsTruncated, complete(ret0, storedBucket.objects, it_idx(iter.inner), page.Marker, *prefix))
 //@ rethint           truncB: imp(ret1 == nil && ret0 != nil && ret0.IsTruncated, all(j, 0, len(ret0.Contents), ret0.Contents[j].Key <= ret0.NextMarker))
 //@ uses truncC: inv.shape -hints hint.done hint.pos
-//@ uses truncB: inv.objs inv.shape inv.after inv.count inv.below
+//@ uses truncB: inv.objs inv.shape inv.after inv.count inv.below -hints hint.pos hint.cur hint.grow hint.prev
 //@ ensures [C04]     next:   imp(ret1 == nil && ret0.IsTruncated, page.MaxKeys > 0 &&
 //@                             ex(v, 0, sl_len(L), ret0.NextMarker == ks(L, v) && inr(L, v, page.Marker) && complete(ret0, L, v + 1, page.Marker, PF) &&
 //@                               all(j, 0, len(ret0.Contents), ret0.Contents[j].Key <= ret0.NextMarker)))
